@@ -461,6 +461,8 @@ class StmtMixin:
         self.exec_block(s.orelse, st)
 
     def loop_domain(self, v, s, st):
+        if "iter" in self.m.hooks and isinstance(v, T):
+            v = self.m.hooks["iter"](self, v, st) or v
         if isinstance(v, tuple) and v and v[0] == "mapview":
             return MapDomain(self, v[2], v[1])
         if isinstance(v, T) and isinstance(v.sort, tuple):
